@@ -119,6 +119,7 @@ type retInfo struct {
 	st   *State
 	vals []Val
 	pos  token.Pos
+	in   ssa.Instruction
 }
 
 type Frame struct {
@@ -1549,7 +1550,7 @@ func (fr *Frame) execBlock(b *ssa.BasicBlock, st *State, loops map[int]*loopInfo
 			for _, r := range x.Results {
 				rs = append(rs, fr.val(st, r))
 			}
-			fr.rets = append(fr.rets, retInfo{st: st, vals: rs, pos: x.Pos()})
+			fr.rets = append(fr.rets, retInfo{st: st, vals: rs, pos: x.Pos(), in: x})
 		case *ssa.Panic:
 			u.check(fr, st, "panic", "", "false", "explicit panic is unreachable", x.Pos(), nil)
 			st.dead = true
